@@ -205,6 +205,23 @@ def extract_trim(repo):
             flags[n.targets[0].id] = v.args[0].id
     if flags != {"gate_0_is_bitflip": "gate0", "gate_1_is_bitflip": "gate1"}:
         raise TranslateError("trim_trivial_circuit: bitflip flags are not is_bitflip_gate(gate0/gate1): %s" % flags)
+    # which qubits count as used: the union of the entangled index sets, themselves collected from targets AND controls
+    src = " ".join(ast.unparse(fn).split())
+    for needle in ("circs = circuit.split(trim_qubits=False)", "e_indices = circuit.get_entangled_indices()",
+                   "used_qubits = set() for eq in e_indices: used_qubits.update(eq)",
+                   "for qubit_idx in set(range(circuit.width)) - used_qubits: trim_states[qubit_idx] = 0",
+                   "circuit_new.trim_qubits()", "return (circuit_new, dict(sorted(trim_states.items())))"):
+        if needle not in src:
+            raise TranslateError("trim_trivial_circuit: expected `%s`" % needle)
+    ctree = parse(repo / "tangelo/linq/circuit.py")
+    gei = ast.unparse(find_def(ctree, "get_entangled_indices", cls="Circuit"))
+    if "q_new = set(g.target) if g.control is None else set(g.target + g.control)" not in gei:
+        raise TranslateError("Circuit.get_entangled_indices: qubits of a gate are not collected as target + control")
+    tq = ast.unparse(find_def(tree, "trim_trivial_qubits"))
+    for needle in ("trimmed_circuit, trim_states = trim_trivial_circuit(circuit)",
+                   "trimmed_operator = trim_trivial_operator(operator, trim_states, circuit.width, reindex=True)"):
+        if needle not in tq:
+            raise TranslateError("trim_trivial_qubits: expected `%s`" % needle)
     loops = [n for n in fn.body if isinstance(n, ast.For) and isinstance(n.target, ast.Tuple)]
     if len(loops) != 1:
         raise TranslateError("trim_trivial_circuit: component loop not found")
